@@ -1890,9 +1890,19 @@ namespace bloch::runtime {
                         if (m_hasReturn)
                             break;
                     }
-                } catch (const BlochError&) {
-                    if (!m_pendingDestructorError)
-                        m_pendingDestructorError = std::current_exception();
+                } catch (const std::exception& ex) {
+                    // a runtime error, or memory exhaustion: neither may leave the deleter that
+                    // runs this destructor (std::terminate); it is reported at the next statement
+                    if (!m_pendingDestructorError) {
+                        if (dynamic_cast<const BlochError*>(&ex))
+                            m_pendingDestructorError = std::current_exception();
+                        else
+                            m_pendingDestructorError = std::make_exception_ptr(BlochError(
+                                ErrorCategory::Runtime, cur->destructorDecl->line,
+                                cur->destructorDecl->column,
+                                dynamic_cast<const std::bad_alloc*>(&ex) ? "out of memory"
+                                                                          : ex.what()));
+                    }
                     // the error left the body from inside nested blocks or calls: close the scopes
                     // and frames they had opened, so that the stack is as the body found it
                     while (m_frameStack.size() > framesInBody) {
